@@ -163,8 +163,11 @@ def classify(unit, out, res, diags, stderr):
         if asm_line and 0 < asm_line <= len(out.lines):
             text = out.lines[asm_line - 1].strip()[:160]
         implicit = bool(fn) and label == implicit_label(fn, unit)
-        if implicit and unit.get("implicit") == "nondeciding":
-            # units that only decide labelled obligations (CL03 generators: no panic-freedom property applies)
+        panic_kind = msg.startswith("precondition not satisfied") or "arithmetic underflow/overflow" in msg or "division by zero" in msg or "bit shift" in msg
+        if implicit and unit.get("implicit") == "nondeciding" and panic_kind:
+            # CL03 units: a panic is a refusal and no property speaks about panic freedom, so unlabelled callee / index /
+            # overflow preconditions do not decide.  Failed loop invariants, assertions and postconditions DO: they carry
+            # the proof of the labelled clauses (a clause "proved" from a failed invariant is not proved).
             notes.append({"nondeciding_implicit": label, "site": site, "message": msg})
             continue
         failures.append({"label": label, "fn": fn, "message": msg, "site": site, "asm_line": asm_line, "text": text, "clause_src": contract_src,
